@@ -477,7 +477,7 @@ func (ff *FuncFacts) phiCondFacts(cond ssa.Value, truth bool) FactSet {
 				same := (ec.Value == nil && oc.Value == nil) || (ec.Value != nil && oc.Value != nil && ec.Value.ExactString() == oc.Value.ExactString())
 				return nil, true, same == (x.Op == token.EQL)
 			}
-			if oc.Value == nil && knownNonNilErr(e) {
+			if oc.Value == nil && valueKnownNonNil(e) {
 				return nil, true, x.Op == token.NEQ
 			}
 			op := x.Op
@@ -574,7 +574,7 @@ func (fa *Facts) substPhiCond(cond ssa.Value, truth bool, phiBlock *ssa.BasicBlo
 			same := (ec.Value == nil && oc.Value == nil) || (ec.Value != nil && oc.Value != nil && ec.Value.ExactString() == oc.Value.ExactString())
 			return nil, true, (same == (x.Op == token.EQL)) == truth, true
 		}
-		if oc.Value == nil && knownNonNilErr(e) {
+		if oc.Value == nil && valueKnownNonNil(e) {
 			return nil, true, (x.Op == token.NEQ) == truth, true
 		}
 		op := x.Op
@@ -744,4 +744,20 @@ func (ff *FuncFacts) Holds(in ssa.Instruction, alts ...string) bool {
 		}
 	}
 	return false
+}
+
+// valueKnownNonNil: freshly allocated objects, results of errors.New /
+// fmt.Errorf and package-level error variables initialised that way.
+func valueKnownNonNil(v ssa.Value) bool {
+	v = stripConv(v)
+	switch x := v.(type) {
+	case *ssa.Alloc:
+		return true
+	case *ssa.Call:
+		if g := staticCallee(&x.Call); g != nil {
+			n := qualFuncName(g)
+			return n == "errors.New" || n == "fmt.Errorf"
+		}
+	}
+	return knownNonNilErr(v)
 }
